@@ -14,8 +14,10 @@ import sfc_models.equation
 import sfc_models.utils
 
 LEADS = [None, '', 'x', 'x*y', '2*x', '(a+b)', 'a+b*x', '0.0', '-x', 'y/x']
-PRE = ['x', 'y', 'x*y', '2', 'x/y', 'x/2']
-ADD = ['x', '+x', '-x', '(-x)', '-(x)', '-(-x)', '+(+x)', 'x*y', '-x/y', '2', '-2', 'x*2', ' - x ', 'y', '-(x*y)', 'a', 'y/x', 'y*x', '2*x', 'x/2', '-(2/x)']
+PRE = ['x', 'y', 'x*y', '2', 'x/y', 'x/2', '3.14159265']
+ADD = ['x', '+x', '-x', '(-x)', '-(x)', '-(-x)', '+(+x)', 'x*y', '-x/y', '2', '-2', 'x*2', ' - x ', 'y', '-(x*y)', 'a', 'y/x', 'y*x', '2*x', 'x/2', '-(2/x)',
+       # numbers in every literal spelling, with more significant digits than any short float format keeps, and pairs that agree to six digits
+       '1234567.5', '-0.0123456789', '3.14159265', '-3.14159312', '2.', '.5', '1e-7', '-(19500.125)', '1234567.5*x', 'x/0.0123456789']
 
 
 def xenv(D):
